@@ -173,10 +173,10 @@ def jobs(tier):
              "puresnmp_plugins.security.v2c:SNMPv2cSecurityModel.process_incoming_message",
              "puresnmp_plugins.security.usm:UserSecurityModel.send_discovery_message"]
 
-    def args(v3, nticks):
+    def args(v3, nticks, allcomm=True):
         a = [Arg(f"t{i}", 0, 1 if i < nticks else 0) for i in range(6)]
         a += [Arg("d_sel", 0, len(OFFSETS) - 1)]
-        a += [Arg("comm_sel", 0, 0 if v3 else len(COMMUNITIES) - 1), Arg("ver_sel", 0, 0 if v3 else 1), Arg("disco_sel", 0, 1 if v3 else 0)]
+        a += [Arg("comm_sel", 0, 0 if v3 else (len(COMMUNITIES) - 1 if allcomm else 3)), Arg("ver_sel", 0, 0 if v3 else 1), Arg("disco_sel", 0, 1 if v3 else 0)]
         return a
 
     for kind in ("v1", "v2c", "noauth", "md5", "sha1priv"):
@@ -189,7 +189,8 @@ def jobs(tier):
             if quick and kind == "noauth" and op not in ("multiget", "set", "bulkget", "bulkwalk2"):
                 continue
             nticks = 3 if op in ("get", "multiget", "getnext", "multigetnext", "set", "multiset", "bulkget") and not v3 else (4 if quick else 6)
-            out.append(Job(f"{kind}-{op}", make_harness(kind, op), args(v3, nticks), timeout=400 if quick else 1200,
+            out.append(Job(f"{kind}-{op}", make_harness(kind, op), args(v3, nticks, allcomm=(not quick or op in ("get", "walk2", "bulkget"))),
+                           timeout=400 if quick else 1200,
                            mode="E/concolic-window", functions=funcs, sample_every=9))
     out.append(Job("v2c-multiset-wrap-base", make_harness("v2c", "multiset", base=2 ** 31 - 2), args(False, 3), timeout=400,
                    mode="E/concolic-window", functions=funcs, sample_every=9))
